@@ -777,10 +777,22 @@ impl Xot {
                         // namespace from the outer scope stays usable
                         // everywhere in this element: it must not be bound to
                         // another namespace by this element or below it.
+                        // An attribute in the namespace needs a non-empty
+                        // prefix, the default namespace won't do for it.
                         let outer_prefix_survives = |namespace_id: NamespaceId| {
+                            let needs_non_empty_prefix = self.descendants(node).any(|descendant| {
+                                self.is_element(descendant)
+                                    && self
+                                        .attributes(descendant)
+                                        .keys()
+                                        .any(|name| self.namespace_for_name(name) == namespace_id)
+                            });
                             fullname_serializer
                                 .prefixes_for_namespace(namespace_id)
                                 .into_iter()
+                                .filter(|prefix| {
+                                    !needs_non_empty_prefix || *prefix != self.empty_prefix_id
+                                })
                                 .any(|prefix| {
                                     !self.descendants(node).any(|descendant| {
                                         self.is_element(descendant)
